@@ -13,6 +13,16 @@ PROPS = {
         "nontrivial": "each case deals a secret and checks every share / recovery against num-bigint",
         "assumptions": ["Fp::random terminates (rejection sampling) — modelled with fuel"],
     },
+    "C08": {
+        "streams": ["fp", "wire"],
+        "technique": "Lean 4 proof (decoder = declarative layout parser for all byte strings; round trip; canonical re-encoding) + byte-exact correspondence of decoders/encoders on prefixes, boundary length fields, faults, splices, random strings",
+        "level_text": "Unconditional Lean theorems about the statement-by-statement models of star_sharks::Share::try_from / Vec<u8>::from, adss::Share::{from,to}_bytes, sta_rs::Message::{from,to}_bytes and load_bytes/store_bytes: for ALL byte strings a decoder accepts iff the string has the documented layout (accept-iff theorems), decode(encode v) = v for every representable value, and the re-encoding of any accepted string is its canonical form (partial trailing element in S dropped and S's prefix adjusted, bytes after the tag chunk dropped, nothing else changed). Tied to the code by the wire stream (model and implementation agree on accept/reject and on the re-encoding of every accepted string) and an independent Rust layout parser as oracle.",
+        "level_note": "Trusted: Lean kernel, extractor (element length, MAC length, access-structure length come from the source), harness/driver. Sizes are unbounded Nat in the model with explicit < 2^32 guards where Rust narrows with `as u32`; strings >= 4 GiB are not exercised by the correspondence.",
+        "design_ref": "DESIGN.md section 6, C08",
+        "clauses": {"round trip": "U", "layout": "U", "accept iff well-formed (all byte strings)": "U", "canonical re-encoding": "U"},
+        "nontrivial": "each case is one byte string decided by an independent layout parser and by the decoder",
+        "assumptions": [],
+    },
     "C07": {
         "streams": ["fp"],
         "technique": "Lean 4 proof (Pratt certificate with kernel-evaluated modular powers, ZMod p correspondence, canonical-encoding lemmas) + correspondence of the compiled ff_derive field against the model",
